@@ -7,5 +7,7 @@ namespace Generated
 /-- every mutating phase of Flatten ends with `opts.Spec.reload()` -/
 theorem c10_facts : C10.FactsOK facts where
   allReload := by decide
+  resetComplete := by decide
+  reloadIsResetThenInit := by decide
 
 end Generated
